@@ -68,5 +68,6 @@ Verdict ==
   PrintT(ToJson([h |-> Hs[h].id, l |-> l',
                  fails   |-> Fails(st, e.msg, e.faults, e.obs) \cup HistFails(st', hist')
                              \cup (IF l' = 1 THEN InitFails(Hs[h]) ELSE {}),
-                 applies |-> Applied(st, e.msg, e.faults, e.obs)]))
+                 applies |-> Applied(st, e.msg, e.faults, e.obs),
+                 div     |-> Diverges(st, e.msg, e.faults, e.obs)]))
 =============================================================================
